@@ -137,6 +137,9 @@ def hist_task(task):
     hs = enumerate_histories(len(pool), L, with_query=(k == 4))
     q = '(get-model)' if fam.models else '(get-info :name)'
     for hist in hs[start::step]:
+        if 'lookahead' in opts and 'push' in hist:
+            # known divergence (C30 finding pure-lookahead-after-push): every such run would only burn its time limit
+            cov['skipped_known_divergence'] += 1; continue
         script = render(fam, pool, hist, opts, q)
         r = w.run(script, timeout=5)
         cov['executions'] += 1; cov['transitions'] += len(hist)
